@@ -391,6 +391,7 @@ func (c *cacheWrap) Sync() error {
 type Rig struct {
 	FSCache    string // filesystem cache type of the documented composition ("" = none, "dir", "memory")
 	FSCacheDir string
+	Intruded   int // bytes appended to the drive by the harness in the middle of a call (ops.go, archive with Flag 1)
 	Cfg   Cfg
 	Dir   string
 	Drive string
